@@ -1,4 +1,5 @@
 import IdModel.Bitmap.Model
+import IdModel.Bitmap.Lookup
 import Driver.Util
 namespace Driver.C06
 open IdModel IdModel.Bitmap
@@ -71,7 +72,25 @@ def handle : List String → String
     | some s => " ".intercalate (runHist s ops)
     | none => "bad-request"
   -- several trusted issuers: the status is looked up in the document whose id EQUALS the credential's issuer (the first set)
-  | ["statusx", _, _, _, _] => "u"  -- same fragment under two DIDs: implementation-side oracle only
+  -- the fragment `#rev` (1) under two DIDs: issuer = DID 1, other = DID 2; the service is looked up in the issuer
+  -- document by the FULL id of the status entry (Bitmap/Lookup.lean over the C04 document model)
+  | ["statusx", v, i, a, b] =>
+    match i.toNat?, nats a, nats b with
+    | some i, some sa, some sb =>
+      let own : IdModel.Doc.Id := ⟨1, 0, some 1⟩
+      let foreign : IdModel.Doc.Id := ⟨2, 0, some 1⟩
+      let sets : Nat → Option (List Nat) := fun n => if n == 1 then some sa else if n == 2 then some sb else none
+      let mk (svcs : List IdModel.Doc.Service) : IdModel.Doc.Doc := ⟨1, [], [], [], [], [], [], svcs⟩
+      let st : StatusView := { typeIsBitmap := true, indexProp := some (some (some i)), queryIndices := [some i], idIsDidUrl := true }
+      let r? : Option VRes :=
+        if v == "foreign" then some (checkStatusDoc .strict (some st) true (mk [⟨own, 1⟩]) sets foreign)
+        else if v == "two" then some (checkStatusDoc .strict (some st) true (mk [⟨foreign, 1⟩, ⟨own, 2⟩]) sets own)
+        else if v == "twor" then some (checkStatusDoc .strict (some st) true (mk [⟨own, 2⟩, ⟨foreign, 1⟩]) sets own)
+        else none
+      match r? with
+      | some r => showV r
+      | none => "bad-request"
+    | _, _, _ => "bad-request"
   | ["statusm", _order, i, a, _b] =>
     match i.toNat?, nats a with
     | some i, some a => if i ∈ a then "revoked" else "ok"
